@@ -150,3 +150,65 @@ func VH_C15_stateloop_shutdown() {
 	vAssert(r.state == Leader || r.state == Follower, "state-sane")
 	vReach("end")
 }
+
+//verif:check C15,C01,C17 stubs=rt,timers,valuefile,abslog onblock=violation reach=candidate,leader,stepdown,closed,end desc="real stateLoop through an election: follower times out, becomes candidate (term+1, self vote durable), collects vote replies offered on its reply channel, becomes leader exactly when a majority of voters granted, appends its no-op; a reply with a higher term sends it back to follower; then shutdown. Election enabledness (P4) and no blocked goroutine" bounds="3 voters; replies from the two other voters with symbolic result and term; event script of 5 events"
+func VH_C15_stateloop_election() {
+	r := vLoopNode(Follower)
+	cfg := r.configs.Latest.clone()
+	cfg.Nodes[3] = Node{ID: 3, Addr: vAddr(3), Voter: true}
+	r.configs.Latest, r.configs.Committed = cfg, cfg
+	res2, res3 := rpcResult(vU8("vote2.result")), rpcResult(vU8("vote3.result"))
+	vAssume(res2 == success || res2 == alreadyVoted || res2 == leaderKnown)
+	vAssume(res3 == success || res3 == alreadyVoted || res3 == logNotUptodate)
+	t2 := vU64("vote2.term")
+	vAssume(t2 >= 1 && t2 < 1<<62)
+	step := 0
+	becameCandidate := false
+	vSetIdleHook(func() {
+		vDrainFSM(r)
+		switch step {
+		case 0:
+			vAssert(vFire(r.timer), "follower-election-timer-was-armed")
+		case 1:
+			vAssert(r.state == Candidate, "P4-voter-times-out-into-candidate")
+			becameCandidate = true
+			vReach("candidate")
+			dt, dv := vDurable(".term")
+			vAssert(r.term == 2 && dt == 2 && dv == r.nid, "E1-term-incremented-and-self-vote-durable")
+			vOffer(r.cnd.respCh, rpcResponse{response: &voteResp{resp{t2, res2, nil}}, from: 2})
+		case 2:
+			if r.state == Candidate {
+				vOffer(r.cnd.respCh, rpcResponse{response: &voteResp{resp{2, res3, nil}}, from: 3})
+			} else {
+				r.doClose(ErrServerClosed) // the election is over already (won or stepped down)
+			}
+		default:
+			if !r.isClosed() {
+				r.doClose(ErrServerClosed)
+			}
+		}
+		step++
+	})
+	r.stateLoop()
+	vReach("closed")
+	vAssert(becameCandidate, "script-ran")
+	granted := 1
+	if t2 <= 2 && res2 == success {
+		granted++
+	}
+	if t2 > 2 {
+		vReach("stepdown")
+		vAssert(r.term == t2 && r.state == Follower, "E2-higher-term-stepdown")
+	} else {
+		if res3 == success {
+			granted++
+		}
+		if granted >= 2 {
+			vReach("leader")
+			vAssert(r.term == 2 && r.lastLogIndex == 2, "leader-appended-noop-in-its-term")
+		} else {
+			vAssert(r.state != Leader && r.lastLogIndex == 1, "no-majority-no-leader")
+		}
+	}
+	vReach("end")
+}
